@@ -260,7 +260,7 @@ unsafe impl GlobalAlloc for Tracker {
         }
         let step = STEP.load(Ordering::Relaxed);
         let found = TABLE.with(|t| {
-            if t.blocks.is_empty() {
+            if t.blocks.is_empty() && t.stale.is_empty() {
                 return Found::No;
             }
             // newest first: a pointer can appear only once among live blocks
